@@ -55,3 +55,11 @@ func VerifBufCap(cx *Connection) int { return cap(cx.buf) }
 
 const VerifPrefetchChunkSize = prefetchChunkSize
 const VerifUDPIdleTimeout = udpAssociationIdleTimeout
+
+// VerifRewind puts the read cursor back to where the router froze it, so that a
+// harness wrapper can evaluate a matcher twice on the same bytes (the router
+// does the same after every matcher).
+func VerifRewind(cx *Connection) { cx.offset = cx.frozenOffset }
+
+// VerifBufBytes returns the whole prefetch buffer (read-only view).
+func VerifBufBytes(cx *Connection) []byte { return cx.buf }
